@@ -12,7 +12,7 @@ from .cpp01 import vtable_slots, struct_of
 SRC = dict(
     LOA='src/libawkward/array/ListOffsetArray.cpp', LA='src/libawkward/array/ListArray.cpp', RA='src/libawkward/array/RegularArray.cpp',
     IA='src/libawkward/array/IndexedArray.cpp', NA='src/libawkward/array/NumpyArray.cpp', BMA='src/libawkward/array/ByteMaskedArray.cpp',
-    UMA='src/libawkward/array/UnmaskedArray.cpp', BIT='src/libawkward/array/BitMaskedArray.cpp', IDX='src/libawkward/Index.cpp', CNT='src/libawkward/Content.cpp', UTL='src/libawkward/util.cpp', KD='src/libawkward/kernel-dispatch.cpp',
+    REC='src/libawkward/array/RecordArray.cpp', UMA='src/libawkward/array/UnmaskedArray.cpp', BIT='src/libawkward/array/BitMaskedArray.cpp', IDX='src/libawkward/Index.cpp', CNT='src/libawkward/Content.cpp', UTL='src/libawkward/util.cpp', KD='src/libawkward/kernel-dispatch.cpp',
     IDS='src/libawkward/Identities.cpp', SLC='src/libawkward/Slice.cpp', EA='src/libawkward/array/EmptyArray.cpp', KU='src/cpu-kernels/kernel-utils.cpp')
 
 
@@ -117,6 +117,10 @@ def s_false(eng, fr, ins, st, name, argv):
 
 
 COMMON_STUBS = {
+    # error-message construction: strings are empty, exception objects are not built (the raise itself is modelled by __cxa_throw)
+    '_ZNSt7__cxx1112basic_stringIcSt11char_traitsIcESaIcEEC1EPKcRKS3_': s_empty_string, '_ZNSt7__cxx1112basic_stringIcSt11char_traitsIcESaIcEEC2EPKcRKS3_': s_empty_string,
+    '_ZStplIcSt11char_traitsIcESaIcEENSt7__cxx1112basic_stringIT_T0_T1_EE*': s_empty_string, '_ZNSt7__cxx119to_stringEl': s_empty_string,
+    '_ZNSt16invalid_argumentC1ERKNSt7__cxx1112basic_stringIcSt11char_traitsIcESaIcEEE': stub_noop, '_ZNSt13runtime_errorC1ERKNSt7__cxx1112basic_stringIcSt11char_traitsIcESaIcEEE': stub_noop,
     # harness nodes carry no parameters: parameter_equals(key, "<some non-null JSON>") is false (the JSON comparison itself is rapidjson's)
     '_ZNK7awkward7Content16parameter_equalsERKNSt7__cxx1112basic_stringIcSt11char_traitsIcESaIcEEES8_': s_false,
     '_ZN7awkward4util16parameter_equalsE*': s_false,
@@ -387,6 +391,7 @@ CLASSES = {
     'N7awkward14IndexedArrayOfIlLb0EEE': ('IA', '_ZNK7awkward14IndexedArrayOfIlLb0EE6lengthEv', 'indexed'),
     'N7awkward13UnmaskedArrayE': ('UMA', '_ZNK7awkward13UnmaskedArray6lengthEv', 'unmasked'),
     'N7awkward15ByteMaskedArrayE': ('BMA', '_ZNK7awkward15ByteMaskedArray6lengthEv', 'bytemasked'),
+    'N7awkward11RecordArrayE': ('REC', '_ZNK7awkward11RecordArray6lengthEv', 'record'),
 }
 
 
@@ -421,6 +426,24 @@ def decode(nc, mem, p):
                     content=decode(nc, mem, cell(fo[3])))
     if kind == 'unmasked':
         return dict(cls=kind, content=decode(nc, mem, cell(fo[1])))
+    if kind == 'record':
+        b, e = cell(fo[2]), cell(fo[2] + 8)
+        bc = [(g, p_) for g, p_ in ptr_cases(b) if p_.obj is not None]
+        ec = [(g, p_) for g, p_ in ptr_cases(e) if p_.obj is not None]
+        conts = []
+        if bc:
+            if len(bc) != 1 or len(ec) != 1:
+                raise Unsupported('RecordArray contents vector is not a single buffer')
+            qb, qe = bc[0][1], ec[0][1]
+            buf = mem.o[qb.obj]
+            if isinstance(buf, RecObj):
+                for i in range((qe.off - qb.off) // 16):
+                    conts.append(decode(nc, mem, buf.cells[qb.off + 16 * i][0]))
+            else:
+                nn = concrete(qe.off - qb.off, 'size of the contents vector') // 2
+                for i in range(nn):
+                    conts.append(decode(nc, mem, buf.arr[concrete(qb.off, 'contents offset') + 2 * i]))
+        return dict(cls=kind, contents=conts, length=cell(fo[4]), recordlookup=cell(fo[3]))
     if kind == 'bytemasked':
         return dict(cls=kind, mask=nc.index_terms(mem, Ptr(q.obj, q.off + fo[1]), 'mask')[0], content=decode(nc, mem, cell(fo[2])), valid_when=cell(fo[3]))
     if kind in ('option', 'indexed'):
@@ -501,6 +524,8 @@ def length_of(d):
         return length_of(d['content'])
     if d['cls'] == 'bytemasked':
         return len(d['mask'])
+    if d['cls'] == 'record':
+        return concrete(d['length'], 'RecordArray length')
     return len(d['index'])
 
 
@@ -517,6 +542,8 @@ def at(d, k):
         return [at(d['content'], z3.simplify(k * size + j)) for j in range(size)]
     if c == 'unmasked':
         return at(d['content'], k)
+    if c == 'record':
+        return [at(x, k) for x in d['contents']]
     kk = concrete(k, 'position in a list/index node')
     if c == 'bytemasked':
         vw = d['valid_when']
